@@ -74,12 +74,18 @@ CONSTANTS Tasks, MaxOps,
           TSO,             \* model per-task store buffers
           Nb0,             \* initial value of the 4 bytes that follow the lock word
           EnvNb,           \* the neighbour is another lock, taken and released by the environment at any time
+          AttOverride,     \* 9: Acquire passes the spin budget found in the source; 0..3: that budget instead (0 wraps to the
+                           \* largest count on the first DEC, as 0 does in 32 bits)
+          TrackYield,      \* keep the history needed for YieldBound (costs states)
+          Stray,           \* include Release calls by tasks that hold nothing (on a free lock)
           WordMod,         \* 0, or a small modulus for arithmetic on the lock word (atomic add): a count kept in the
                            \* lock word wraps after WordMod steps instead of 2^32
           RelPlain,        \* leg M variant: Release is the plain store  l.state = 0  instead of the extracted body
           Bug              \* design mutants of the interpreter (leg M): "none" | "XchgNotAtomic" | "BufferNotFifo"
 
 PTR == 100   YIELD == 101   YCODE == 102   UNDEF == 0 - 1   CMod == 4
+BIG == 50      \* a count that does not run out: what a 32-bit register holds after 0 has been decremented
+YieldK == 8    \* a waiter reaches its yield point after at most this many looks at a lock it finds taken
 NoRegs == [AX |-> UNDEF, BX |-> UNDEF, CX |-> UNDEF, DX |-> UNDEF, SI |-> UNDEF, DI |-> UNDEF, S1 |-> UNDEF, S2 |-> UNDEF, ATT |-> 0, RET |-> 0, Z |-> FALSE, C |-> FALSE]
 
 VARIABLES state,     \* the lock word in memory
@@ -96,14 +102,15 @@ VARIABLES state,     \* the lock word in memory
           fx,        \* task -> its current TryToAcquire has changed the VALUE of the lock word (history)
           alone,     \* task -> during its current TryToAcquire every other task has been outside any call and
                      \*         outside the lock all the time (history)
+          polls,     \* task -> looks at the lock word by its blocking Acquire since it last reached its yield point
           nops,      \* task -> calls made
           wild       \* an instruction used a register / a return in a way the interpreter cannot justify
-vars == <<state, nb, nbenv, counter, buf, pc, cur, hold, reg, tmp, done, fx, alone, nops, wild>>
+vars == <<state, nb, nbenv, counter, buf, pc, cur, hold, reg, tmp, done, fx, alone, polls, nops, wild>>
 
 Init == /\ state = 0 /\ nb = Nb0 /\ nbenv = Nb0 /\ counter = 0 /\ buf = [t \in Tasks |-> <<>>]
         /\ pc = [t \in Tasks |-> 0] /\ cur = [t \in Tasks |-> "acq"] /\ hold = [t \in Tasks |-> FALSE]
         /\ reg = [t \in Tasks |-> NoRegs]
-        /\ tmp = [t \in Tasks |-> 0] /\ done = 0 /\ fx = [t \in Tasks |-> FALSE] /\ alone = [t \in Tasks |-> FALSE] /\ nops = [t \in Tasks |-> 0] /\ wild = <<>>
+        /\ tmp = [t \in Tasks |-> 0] /\ done = 0 /\ fx = [t \in Tasks |-> FALSE] /\ alone = [t \in Tasks |-> FALSE] /\ polls = [t \in Tasks |-> 0] /\ nops = [t \in Tasks |-> 0] /\ wild = <<>>
 
 ---------------------------------------------------------------------------
 (* memory *)
@@ -163,10 +170,11 @@ RelEntry == IF RelPlain THEN Len(Prog) + 1 ELSE EntryRel
 CallRelease(t) == /\ pc[t] = 0 - 1 /\ RelEntry > 0
                   /\ PlainStore(t, "counter", tmp[t] + 1)
                   /\ Enter(t, RelEntry, "rel") /\ hold' = [hold EXCEPT ![t] = TRUE]
-                  /\ UNCHANGED <<nbenv, tmp, done, fx, nops, wild>>
+                  /\ tmp' = [tmp EXCEPT ![t] = 0] /\ fx' = [fx EXCEPT ![t] = FALSE]
+                  /\ UNCHANGED <<nbenv, done, nops, wild>>
 \* "Calling Release while the lock is free has no effect": any task, also one that never acquired, runs the Release
 \* body while the lock is free and every task is outside any call; the lock must stay free and acquirable.
-CallStray(t) == /\ RelEntry > 0 /\ nops[t] < MaxOps
+CallStray(t) == /\ Stray /\ RelEntry > 0 /\ nops[t] < MaxOps
                 /\ \A u \in Tasks : pc[u] = 0 /\ buf[u] = <<>>       \* nobody holds the lock or is inside a call: it is free
                 /\ Enter(t, RelEntry, "srel") /\ nops' = [nops EXCEPT ![t] = @ + 1]
                 /\ UNCHANGED <<state, nb, nbenv, counter, buf, hold, tmp, done, fx, wild>>
@@ -277,12 +285,14 @@ Step(t) ==
                               /\ reg' = [reg EXCEPT ![t].Z = (ReadW(t, i.w) = i.v)]
                               /\ IF r[i.s] = PTR THEN Good ELSE Bad(t, "compare through a register that does not hold the lock address")
        [] i.op \in {"dec", "inc"} ->     \* a register clobbered by CALL holds an arbitrary count
-                              \* (an unknown count: one that runs out at this step, one that does not)
-                              \E v0 \in (IF r[i.d] \in 0..(CMod - 1) \/ r[i.d] \in {PTR, YIELD} THEN {r[i.d]} ELSE {1, 2}) :
-                              LET v == (v0 + (IF i.op = "dec" THEN CMod - 1 ELSE 1)) % CMod IN
+                              \* (an unknown count: one that runs out at this step, one that does not; decrementing 0 wraps to
+                              \* the largest count, which for all practical purposes never runs out)
+                              \E v0 \in (IF r[i.d] \in 0..(CMod - 1) \/ r[i.d] \in {BIG, PTR, YIELD} THEN {r[i.d]} ELSE {1, 2}) :
+                              LET v == IF v0 = BIG \/ (i.op = "dec" /\ v0 = 0) THEN BIG
+                                       ELSE (v0 + (IF i.op = "dec" THEN CMod - 1 ELSE 1)) % CMod IN
                               /\ Goto(t, n) /\ Same /\ Keeps
                               /\ reg' = [reg EXCEPT ![t][i.d] = v, ![t].Z = (v = 0)]
-                              /\ IF v0 \in 0..(CMod - 1) THEN Good ELSE Bad(t, "arithmetic on a register that holds an address")
+                              /\ IF v0 \in 0..(CMod - 1) \/ v0 = BIG THEN Good ELSE Bad(t, "arithmetic on a register that holds an address")
        [] i.op = "jnz"     -> Goto(t, IF ~r.Z THEN i.to ELSE n) /\ Good /\ Same /\ Keeps /\ UNCHANGED reg
        [] i.op = "jz"      -> Goto(t, IF r.Z THEN i.to ELSE n) /\ Good /\ Same /\ Keeps /\ UNCHANGED reg
        [] i.op = "jmp"     -> Goto(t, i.to) /\ Good /\ Same /\ Keeps /\ UNCHANGED reg
@@ -300,7 +310,7 @@ Step(t) ==
                                       ELSE UNCHANGED state /\ reg' = [reg EXCEPT ![t].AX = state, ![t].Z = FALSE] /\ Keeps
                               ELSE Goto(t, n) /\ UNCHANGED reg /\ Same /\ Keeps
                                    /\ Bad(t, "cmpxchg operands are not (value register, lock address) with a defined AX")
-       [] i.op = "tail"    -> /\ Goto(t, 1) /\ reg' = [reg EXCEPT ![t] = [NoRegs EXCEPT !.ATT = i.v, !.RET = n]] /\ Same /\ Keeps
+       [] i.op = "tail"    -> /\ Goto(t, 1) /\ reg' = [reg EXCEPT ![t] = [NoRegs EXCEPT !.ATT = (IF AttOverride = 9 THEN i.v ELSE AttOverride), !.RET = n]] /\ Same /\ Keeps
                               /\ IF cur[t] = "acq" /\ r.RET = 0 THEN Good ELSE Bad(t, "archAcquireSpinlock called outside Acquire")
        [] i.op = "ret" /\ r.RET # 0 ->      \* the assembly routine returns into Acquire
                               Goto(t, r.RET) /\ reg' = [reg EXCEPT ![t].RET = 0] /\ Good /\ Same /\ Keeps
@@ -308,7 +318,7 @@ Step(t) ==
                               \* a stray release only counts as over once its store is visible (otherwise it would
                               \* overlap a later acquisition, which is outside the property)
                               /\ cur[t] = "srel" => Drained(t)
-                              /\ Same /\ UNCHANGED reg
+                              /\ Same /\ reg' = [reg EXCEPT ![t] = NoRegs]        \* nothing of the call survives its return
                               /\ hold' = [hold EXCEPT ![t] = FALSE]
                               /\ IF (cur[t] = "try") = (i.op # "ret") THEN Good ELSE Bad(t, "return kind does not fit the method")
                               /\ pc' = [pc EXCEPT ![t] = IF cur[t] \in {"rel", "srel"} \/ i.op = "retf" THEN 0 ELSE 0 - 1]
@@ -333,9 +343,18 @@ OthersOut(t) == \A u \in Tasks \ {t} : pc'[u] = 0 /\ buf'[u] = <<>>
 AloneUpdate == alone' = [t \in Tasks |->
                   IF pc[t] = 0 /\ pc'[t] # 0 /\ cur'[t] = "try" THEN OthersOut(t) /\ \A u \in Tasks \ {t} : pc[u] = 0 /\ buf[u] = <<>>
                   ELSE IF cur[t] = "try" /\ pc[t] # 0 THEN alone[t] /\ OthersOut(t)
-                  ELSE alone[t]]
-Next == ((\E t \in Tasks : CallAcquire(t) \/ CallTry(t) \/ CallStray(t) \/ Proceed(t)) \/ Env) /\ AloneUpdate
-Spec == Init /\ [][Next]_vars /\ \A t \in Tasks : WF_vars(Proceed(t) /\ AloneUpdate)
+                  ELSE FALSE]          \* (read by TryHonestWhenAlone in the state the try returns into, then forgotten)
+\* history: how often has the blocking Acquire of t looked at the lock word since it last reached its yield point ?
+Looks == {"load", "cmpm", "xchg", "cmpxchg", "bts", "lbts", "gload", "gswap", "gcas", "gcasr", "gadd"}
+PollsUpdate == polls' = [t \in Tasks |->
+                  IF ~TrackYield \/ pc'[t] \in {0, 0 - 1} THEN 0
+                  ELSE IF pc[t] \in 1..Len(Prog) /\ pc'[t] # pc[t] /\ cur[t] = "acq"
+                       THEN IF Prog[pc[t]].op = "ldyield" THEN 0
+                            ELSE IF Prog[pc[t]].op \in Looks /\ polls[t] <= YieldK THEN polls[t] + 1
+                            ELSE polls[t]
+                  ELSE polls[t]]
+Next == ((\E t \in Tasks : CallAcquire(t) \/ CallTry(t) \/ CallStray(t) \/ Proceed(t)) \/ Env) /\ AloneUpdate /\ PollsUpdate
+Spec == Init /\ [][Next]_vars /\ \A t \in Tasks : WF_vars(Proceed(t) /\ AloneUpdate /\ PollsUpdate)
 
 ---------------------------------------------------------------------------
 (* The property C08, on the extracted code *)
@@ -355,6 +374,9 @@ EntrySeesAll == \A t \in Tasks : pc[t] = 0 - 1 => tmp[t] = done + Cardinality({u
 \* word (a failed exchange of the held value over the same value, a failed compare-and-swap, a test-and-test-and-set
 \* all leave it as it was; a counter bumped by every failed try does not)
 TryFailsClean == \A t \in Tasks : (pc[t] = 0 /\ cur[t] = "try") => ~fx[t]
+\* "no call blocks forever" where the holder only runs when a waiter yields: a blocked Acquire reaches its yield
+\* point after a bounded number of looks at the lock (a spin budget of 0 that wraps to 2^32 does not)
+YieldBound == \A t \in Tasks : polls[t] <= YieldK
 \* lock operations never modify the bytes that follow the lock word
 NeighbourIntact == (\A t \in Tasks : buf[t] = <<>>) => nb = nbenv
 \* every register use and every return of the extracted code is justified
